@@ -4,6 +4,7 @@ schedules (vh ps-run) -> PsTrace monitors (TLC) -> violations per property."""
 import json
 import os
 import random
+import re
 import time
 
 import mro
@@ -11,7 +12,9 @@ import psrun
 import shapes
 import vlib
 
-DEFAULTS = {"ev": "", "run": "", "job": "", "inst": "", "kind": "", "chunk": 0, "flag": True,
+MERGE_RE = re.compile(r"merge of (map|array) .*(unresolved fork|could not match reference to a specific fork)", re.S)
+
+DEFAULTS = {"ev": "", "run": "", "job": "", "inst": "", "kind": "", "chunk": 0, "flag": True, "weak": False,
             "txt": "", "outcome": "", "jobs": [], "faults": []}
 
 
@@ -37,7 +40,7 @@ def expected_jobs(sem):
 
 
 def monitor_records(spec, sem, result):
-    out = [rec(ev="RunBegin", run=spec["name"], jobs=expected_jobs(sem),
+    out = [rec(ev="RunBegin", run=spec["name"], jobs=expected_jobs(sem), weak=bool(sem.get("weak")),
                faults=[{"key": k, "fault": v} for k, v in (spec.get("faults") or {}).items()])]
     for e in result["trace"]:
         if e["ev"] == "StageBegin":
@@ -55,7 +58,11 @@ def monitor_records(spec, sem, result):
     state = result["state"] or "none"
     if result.get("stuck"):
         state = "stuck-" + state
-    out.append(rec(ev="RunEnd", outcome=state, flag=bool(result["outs_ok"]), txt=notes))
+    fatal = (result.get("fatal_log") or "")
+    if fatal:
+        notes = (notes + " | " + fatal.replace("\n", " "))[:400]
+    out.append(rec(ev="RunEnd", outcome=state, flag=bool(result["outs_ok"]), txt=notes,
+                   kind="merge-unresolved" if MERGE_RE.search(fatal) else ""))
     return out
 
 
@@ -152,6 +159,6 @@ def replay_spec(path):
     vlib.go_build()
     r = psrun.run_specs([s], nproc=1)[0]
     # semantics table is embedded in the spec
-    sem = {"inv": s["invs"], "outs": s["outs"]}
+    sem = {"inv": s["invs"], "outs": s["outs"], "weak": s.get("weak", False)}
     bad, tlc = run_monitor(monitor_records(s, sem, r))
     return bad, r
